@@ -32,19 +32,21 @@ Publish(d, da, o) ==
   TLCSet(1, TLCGet(1) \cup {[t |-> tno, drift |-> d, driftAt |-> da, viol |-> o.viol]})
 
 TInit ==
-  /\ InitWith([partial |-> FALSE, bounce |-> FALSE, nullSender |-> FALSE, mt |-> 1, list |-> <<>>])
+  /\ InitWith([partial |-> FALSE, bounce |-> FALSE, nullSender |-> FALSE, mt |-> 1, list |-> <<>>,
+               rw |-> {}, utf8 |-> FALSE])
   /\ l = 1 /\ drift = FALSE /\ driftAt = 0 /\ tno = 0
   /\ TLCSet(1, {})
 
 TReset ==
   /\ IsEv("Cfg")
   /\ LET c == [partial |-> Ev.partial, bounce |-> Ev.bounce, nullSender |-> Ev.nullSender,
-               mt |-> Ev.mt, list |-> Ev.list] IN
+               mt |-> Ev.mt, list |-> Ev.list, rw |-> ToSet(Ev.rw), utf8 |-> Ev.utf8] IN
        /\ cfg' = c
        /\ to' = IF "DupRcpt" \in Devs THEN c.list ELSE Dedup(c.list)
   /\ phase' = "accept"
   /\ tries' = [r \in Rcpts |-> 0]
   /\ idx' = 0 /\ accepted' = <<>> /\ errs' = NoErrs /\ failed' = <<>> /\ newTo' = <<>>
+  /\ rerr' = NoErrs
   /\ obs' = ObsInit(Rcpts)
   /\ hist' = <<>>
   /\ l' = l + 1 /\ drift' = FALSE /\ driftAt' = 0 /\ tno' = Ev.t
@@ -56,7 +58,15 @@ C_TBody    == IsEv("TBody") /\ TBody(Ev.res)
 C_TBodyNA  == IsEv("TBodyNA") /\ DOMAIN Ev.st = ToSet(accepted) /\ TBodyNA(Ev.st)
 C_TCommit  == IsEv("TCommit") /\ TCommit(Ev.res)
 C_TAbort   == IsEv("TAbort") /\ (TAbortNoRcpt \/ TAbortAllFailed)
-C_Dsn      == IsEv("Dsn") /\ Ev.res = "ok" /\ ToSet(Ev.rcpts) = ToSet(failed) /\ Dsn
+RepOf(e) ==
+  [ mimeOK |-> e.mimeOK, reportType |-> e.reportType, parts |-> e.parts, dsnAscii |-> e.dsnAscii,
+    returnPath |-> e.from, toSender |-> e.toSender, hasOrigHdr |-> e.hasOrigHdr,
+    origSubjOK |-> e.origSubjOK, listed |-> e.rcpts, rewritten |-> ToSet(e.rewritten),
+    status |-> e.status ]
+C_Dsn      == /\ IsEv("Dsn") /\ Ev.stage \in BounceStages
+              /\ Ev.known = (Ev.stage \notin {"start", "rcpt"})
+              /\ Ev.known => [RepOf(Ev) EXCEPT !.dsnAscii = @ \/ cfg.utf8] = GoodReport(ExpectedReport)
+              /\ Dsn(Ev.stage)
 C_Quiesced == IsEv("Quiesced") /\ Ev.spoolEmpty /\ Quiesce
 
 Conform ==
@@ -78,7 +88,10 @@ ObsApply(o, e) ==
     [] e.e = "TBodyNA"  -> ObsBodyNA(o, e.st)
     [] e.e = "TCommit"  -> ObsCommit(o, e.res, cfg.mt)
     [] e.e = "TAbort"   -> ObsAbort(o, cfg.mt)
-    [] e.e = "Dsn"      -> IF e.res = "ok" THEN ObsDsn(o, ToSet(e.rcpts), Suppress(cfg)) ELSE o
+    [] e.e = "Dsn"      -> IF e.known
+                           THEN ObsReport(ObsDsn(o, ToSet(e.rcpts), Suppress(cfg)), RepOf(e), cfg.utf8)
+                           ELSE ObsDsn(o, o.owed, Suppress(cfg))
+    [] e.e = "Dsn2"     -> V(o, FALSE, "ReportAboutReport")
     [] e.e = "Quiesced" -> ObsQuiesced(o, Suppress(cfg), e.spoolEmpty)
     [] OTHER -> o
 
@@ -89,7 +102,7 @@ M_Step ==
   /\ driftAt' = IF drift THEN driftAt ELSE Ev.seq
   /\ obs' = ObsApply(obs, Ev)
   /\ l' = l + 1
-  /\ UNCHANGED <<cfg, phase, to, tries, idx, accepted, errs, failed, newTo, hist, tno>>
+  /\ UNCHANGED <<cfg, phase, to, tries, idx, accepted, errs, failed, newTo, rerr, hist, tno>>
   /\ IF Ev.e = "Quiesced" THEN Publish(TRUE, driftAt', obs') ELSE TRUE
 
 TNext == TReset \/ C_Step \/ M_Step
